@@ -7,7 +7,7 @@ import math
 from rv.core import ctx as _ctx
 from rv.core import instrument
 from rv.core.tolerances import GEOS_BUFFER_SIMPLIFY, ROUND_CAP_SHORTFALL
-from rv.core import calling, scribble
+from rv.core import calling, scribble, threads
 from rv.gen import geoms
 from rv.props import c03
 
@@ -253,7 +253,17 @@ def _excess(small, big, tb, fb):
     out = s2.difference(b2)
     if out.is_empty:
         return 0.0
-    return max((shapely.Point(p).distance(b2) for p in shapely.get_coordinates(out)), default=0.0)
+    # vertices of the uncovered part lie ON the outline of ``big`` where the two outlines cross (a filled hole has ALL its
+    # vertices there): measure at densified outline points and at interior points of every uncovered piece as well
+    pts = [tuple(p) for p in shapely.get_coordinates(shapely.segmentize(out, max(0.25, out.length / 2000.0)))]
+    for part in getattr(out, "geoms", [out]):
+        if part.area > 0:
+            pts.append(part.representative_point().coords[0])
+            try:
+                pts.append(shapely.get_coordinates(shapely.maximum_inscribed_circle(part))[0])
+            except Exception:
+                pass
+    return max((shapely.Point(p).distance(b2) for p in pts), default=0.0)
 
 
 def judge(ctx, spec, tb, fb, tb2=None, fb2=None):
@@ -342,11 +352,13 @@ def judge(ctx, spec, tb, fb, tb2=None, fb2=None):
         key = "monotonicity"
         if edge or edge2:
             key = _key("monotonicity", edge or edge2)
-        elif _has_corner(spec):
+        elif _has_corner(spec) and ex <= MITRE_LIMIT + 0.5:
+            # (a mitre spike is cut off at shapely's default mitre limit of 5 buffer units: a larger excess is something else)
             key += ":mitre_corner"
         ctx.violate("monotonicity", key, observed={"excess_in_buffer_units": ex}, expected="<= 0.006", spec=sp)
 
 
+MITRE_LIMIT = 5.0
 TB = [0.0, 1e-6, 0.001, 0.01, 0.1, 1.0, 30.0, 1e4]
 FB = [0.0, 1e-6, 1.0, 100.0, 1000.0, 50000.0, 6e6]
 
@@ -359,7 +371,7 @@ def run(ctx):
     ctx.assumptions += ["valid, non-self-intersecting input geometries; default shapely buffer options",
                         "buffers in (0, 1e-6) excluded (below the code's degenerate-axis epsilon)",
                         "round caps are 32-gons and GEOS simplifies buffer input at 1 % of the distance: extents may fall 1.6 % of a buffer short; containment judged at 1e-6 buffer units; monotonicity at 0.006 buffer units"]
-    ctx.must_monitors += ["buffer_geometry.post", "buffer.exact", "buffer.contains", "buffer.monotone", "buffer.rejection", "normal_form_walker"]
+    ctx.must_monitors += ["buffer_geometry.post", "buffer.exact", "buffer.contains", "buffer.monotone", "buffer.rejection", "normal_form_walker", "concurrent_calls"]
     ctx.must_reach += ["geometry/operations.py::buffer_geometry", "?geometry/operations.py::buffer_shapely_geometry",
                        "?geometry/operations.py::buffer_timestamp", "?geometry/operations.py::buffer_interval",
                        "?geometry/operations.py::buffer_bounding_box_geometry"]
@@ -377,6 +389,20 @@ def run(ctx):
     ctx.case(("MultiPoint", "directed", "zero_buffer_edge"), {"g": mp, "tb": 0.1, "fb": 0.0})
     judge(ctx, mp, 0.1, 0.0)
 
+    # multi-part shapes with wide holes, buffered by a pair of buffers that straddles the merge of the parts (the smaller
+    # result is a multi-polygon with a hole, the larger one a single polygon with the same, slightly narrower, hole)
+    for t0 in (10.0, 0.0):
+        for gap, k in ((1.0, 7.0), (0.5, 12.0)):
+            fb2 = 100.0
+            ring = lambda a, b, lo, hi: [[a, lo], [b, lo], [b, hi], [a, hi], [a, lo]]
+            outer = ring(t0, t0 + 30.0, 1000.0, 3000.0)
+            hole = ring(t0 + 2.0, t0 + 28.0, 1000.0 + (3000.0 - 1000.0 - 2 * (k + 1) * fb2) / 2, 3000.0 - (3000.0 - 1000.0 - 2 * (k + 1) * fb2) / 2)
+            other = ring(t0 + 30.0 + gap, t0 + 31.0 + gap, 1000.0, 3000.0)
+            for typ, co in (("MultiPolygon", [[outer, hole], [other]]), ("MultiLineString", [[[t0, 1000.0], [t0 + 30.0, 1000.0]], [[t0, 3000.0], [t0 + 30.0, 3000.0]], [[t0 + 30.0 + gap, 1000.0], [t0 + 31.0 + gap, 3000.0]]])):
+                sp_ = {"type": typ, "coordinates": co}
+                for tb1, fb1, tb2 in ((gap / 10, 10.0, gap), (0.0, 0.0, gap)) if typ == "MultiPolygon" else ((gap / 10, 10.0, gap),):
+                    ctx.case((typ, "directed", "holes_across_merge"), {"g": sp_, "tb": tb1, "fb": fb1, "tb2": tb2, "fb2": fb2})
+                    judge(ctx, sp_, tb1, fb1, tb2, fb2)
     # long contours (a pitch track sampled every few milliseconds: thousands of vertices)
     if ctx.shard == 0 or ctx.thorough:
         for nv in (2500, 4500):
@@ -406,6 +432,8 @@ def run(ctx):
                 s = geoms.geom_in_box(rng, typ, t0, t0 + w, f0, min(f0 + h, MAXF))
                 ctx.case((typ, "on_edge:" + edge, "arbitrary_buffers", "exact" if off == 0 else "near"), {"g": s, "tb": tb, "fb": fb, "tb2": None, "fb2": None})
                 judge(ctx, s, tb, fb)
+    for _ in range(ctx.scale(6, 30)):
+        run_concurrent(ctx, rng.getrandbits(32))
     n = ctx.scale(120, 900)
     for typ in geoms.TYPES:
         for i in range(n):
@@ -431,8 +459,33 @@ def run(ctx):
             judge(ctx, s, tb, fb, tb2, fb2)
 
 
+def run_concurrent(ctx, seed, n=24):
+    """A batch job buffering many geometries over a thread pool, each with its own buffers."""
+    import random
+
+    from soundevent.geometry import operations as O
+
+    rng = random.Random(seed)
+    orig = instrument.original(O.buffer_geometry)
+    jobs = []
+    for i in range(n):
+        typ = rng.choice([t for t in geoms.TYPES])
+        sp = geoms.random_geom(rng, typ, rng.choice(["realistic", "dyadic", "edge"]))
+        tb, fb = rng.choice([0.001, 0.01, 0.05, 0.5, 2.0]), rng.choice([1.0, 10.0, 100.0, 1000.0, 20000.0])
+        jobs.append((sp, tb, fb))
+    spec = {"kind": "concurrent", "seed": seed, "n": n}
+    ctx.case(("concurrent", "buffer_geometry"), spec)
+    threads.concurrent_agree(ctx, "buffer_geometry",
+                             [lambda sp=sp, tb=tb, fb=fb: orig(geoms.build(sp, how="dict"), time_buffer=tb, freq_buffer=fb) for sp, tb, fb in jobs],
+                             geoms.to_spec, spec)
+
+
 def replay(ctx, w):
     install()
     s = w["spec"]
     ctx.case("replay", s)
+    if s.get("kind") == "concurrent":
+        for _ in range(5):
+            run_concurrent(ctx, s["seed"], s.get("n", 24))
+        return
     judge(ctx, s["g"], s["tb"], s["fb"], s.get("tb2"), s.get("fb2"))
